@@ -1,6 +1,8 @@
 package introspection
 
 import (
+	"bytes"
+	"encoding/json"
 	"strings"
 
 	"github.com/wundergraph/graphql-go-tools/v2/pkg/ast"
@@ -399,10 +401,29 @@ func (i *introspectionVisitor) TypeRef(typeRef int) TypeRef {
 	}
 }
 
+// stringContent returns the content of a value; the escape sequences of a single-line string
+// literal are decoded (they are those of a JSON string), so that the string the literal denotes
+// is reported and not its source text.
+func (i *introspectionVisitor) stringContent(value ast.Value) string {
+	content := i.definition.ValueContentString(value)
+	if value.Kind != ast.ValueKindString || i.definition.StringValueIsBlockString(value.Ref) || !strings.Contains(content, `\`) {
+		return content
+	}
+	quoted := bytes.NewBuffer(make([]byte, 0, len(content)+2))
+	quoted.WriteByte('"')
+	quoted.WriteString(content)
+	quoted.WriteByte('"')
+	var decoded string
+	if err := json.Unmarshal(quoted.Bytes(), &decoded); err != nil {
+		return content
+	}
+	return decoded
+}
+
 func (i *introspectionVisitor) deprecationReason(directiveRef int) (reason *string) {
 	argValue, exists := i.definition.DirectiveArgumentValueByName(directiveRef, []byte(DeprecationReasonArgName))
 	if exists {
-		reasonContent := i.definition.ValueContentString(argValue)
+		reasonContent := i.stringContent(argValue)
 		return &reasonContent
 	}
 
